@@ -26,7 +26,7 @@ class Contract:
     def __init__(self, target, params=None, requires=(), ensures=None, raises=None, on_raise=None, modifies=None,
                  result=None, returns=None, sets=None, loops=None, inline=(), assumed=None, pure=False,
                  bv_width=None, covers=(), options=None, lemmas=None, doc='', self_type=None, raises_other='forbid',
-                 asserts=None, ghost_init=None, prop=None, replay=None, unchanged_on_raise=None):
+                 asserts=None, ghost_init=None, prop=None, replay=None, unchanged_on_raise=None, opaque=()):
         self.target = target
         self.params = params or {}
         self.requires = list(requires)
@@ -51,6 +51,7 @@ class Contract:
         self.prop = prop
         self.replay = replay
         self.unchanged_on_raise = unchanged_on_raise
+        self.opaque = set(opaque)
 
 
 def _named(x):
@@ -73,6 +74,7 @@ class Registry:
         self.force_inline = set()
         self.lemma_hooks = []
         self.used = set()
+        self.opaque_now = set()   # spec functions treated as uninterpreted symbols in the current proof (opaque / reveal)
 
     def add(self, c):
         if isinstance(c, ClassContract):
@@ -91,6 +93,8 @@ class Registry:
         return self.overrides.get(qualname, _MISSING)
 
     def call_hook(self, E, qualname, st):
+        if qualname in self.opaque_now:
+            return lambda E, st, args, kwargs, q=qualname: apply_opaque(E, q, st, args, kwargs)
         if qualname in self.force_inline:
             return None
         m = self.models.get(qualname)
@@ -224,32 +228,27 @@ def fresh_object(E, st, qualclass, name, alts=None):
     for fname, ftype in cc.fields.items():
         optional = fname.endswith('?')
         fname = fname.rstrip('?')
-        t = (alts or {}).get(fname, ftype)
-        if t == 'absent':
-            continue
-        options = split_union(t)
-        if len(options) != 1:
-            raise Unsupported('field %s.%s has a union type: enumerate it with params alternatives' % (qualclass, fname))
-        st.heap[ref.oid].fields[fname] = fresh_typed(E, st, options[0], '%s.%s' % (name, fname))
+        options = split_union(ftype)
+        if optional:
+            options = options + ['absent']
+        if len(options) == 1:
+            st.heap[ref.oid].fields[fname] = fresh_typed(E, st, options[0], '%s.%s' % (name, fname))
+        else:
+            alts2 = []
+            for o in options:
+                if o == 'absent':
+                    alts2.append((o, ABSENT))
+                else:
+                    alts2.append((o if isinstance(o, str) else repr(o[1]), fresh_typed(E, st, o, '%s.%s' % (name, fname))))
+            st.heap[ref.oid].fields[fname] = LazyUnion(alts2, name)
     return ref
 
 
 def object_alternatives(E, qualclass):
-    """list of dicts field->atomic type, one per combination of union/optional fields"""
-    cc = E.registry.classes.get(qualclass)
-    if cc is None:
+    """union/optional fields are resolved lazily on first read (LazyUnion), so there is one entry alternative"""
+    if E.registry.classes.get(qualclass) is None:
         raise Unsupported('no class contract for ' + qualclass)
-    names, choices = [], []
-    for fname, ftype in cc.fields.items():
-        optional = fname.endswith('?')
-        fname = fname.rstrip('?')
-        opts = split_union(ftype)
-        if optional:
-            opts = opts + ['absent']
-        if len(opts) > 1:
-            names.append(fname)
-            choices.append(opts)
-    return [dict(zip(names, combo)) for combo in itertools.product(*choices)] if names else [{}]
+    return [{}]
 
 
 # ====================================================================== clause evaluation
@@ -739,6 +738,60 @@ def _apply_bound(E, c, st, env, module, where):
             continue
         outs.append(('val', s1, rv))
     return outs
+
+
+_UF_CACHE = {}
+
+
+def _sort_of(v):
+    if isinstance(v, (bool, SBool)):
+        return 'bool'
+    if is_intlike(v):
+        return 'int'
+    if is_byteslike(v):
+        return 'bytes'
+    if v is None:
+        return 'none'
+    raise Unsupported('argument %r of an opaque spec function' % (v,))
+
+
+def apply_opaque(E, qualname, st, args, kwargs):
+    """an opaque spec function is an uninterpreted symbol: only congruence is known about it here; its
+    definition is revealed in the proof of the function whose contract introduces it"""
+    if kwargs:
+        raise Unsupported('keyword arguments to opaque spec function')
+    modname, fname = qualname.rsplit('.', 1)
+    m = loader.load_module(modname)
+    sig = None
+    d = m.defs.get('SIG') if m else None
+    if d and d[0] == 'assign':
+        sig = ast.literal_eval(d[1]).get(fname)
+    if sig is None:
+        raise Unsupported('opaque spec function %s has no result sort in SIG' % qualname)
+    kinds = tuple(_sort_of(a) for a in args)
+    zs = {'bool': z3.BoolSort(), 'int': INT, 'bytes': BYTES}
+    key = (qualname, kinds, sig)
+    if key not in _UF_CACHE:
+        dom = [zs[k] for k in kinds if k != 'none']
+        nm = qualname.replace('spec.', '') + ''.join('_N' if k == 'none' else '' for k in kinds)
+        _UF_CACHE[key] = z3.Function(nm, *(dom + [zs[sig.split('[')[0]]]))
+    f = _UF_CACHE[key]
+    zargs = []
+    for a, k in zip(args, kinds):
+        if k == 'bool':
+            zargs.append(zbool(a))
+        elif k == 'int':
+            zargs.append(zint(a))
+        elif k == 'bytes':
+            zargs.append(zbytes(a))
+    t = f(*zargs)
+    if sig == 'bool':
+        return [('val', st, mk_bool(t))]
+    if sig.startswith('int'):
+        if sig == 'int[nat]':
+            st.fact(t >= 0)
+        return [('val', st, mk_int(t))]
+    return [('val', st, mk_bytes(t))]
 
 
 def _eval_path_base(E, st, path):
